@@ -41,7 +41,7 @@ def _cpp_call(fn, argnames):
             else:
                 args.append(next(it))
         return "%s%s(%s)" % (s.qual, targs, ", ".join(args))
-    sym = s.base[8:]
+    sym = s.base[8:] if s.base.startswith("operator") else s.base
     if fn.level == "operator":
         a = list(argnames)
         if len(a) == 1:
@@ -51,6 +51,11 @@ def _cpp_call(fn, argnames):
         return "(%s %s %s)" % (argnames[0], sym, argnames[1])
     if fn.level == "member":
         return "%s.operator%s(%s)" % (argnames[0], sym, ", ".join(argnames[1:]))
+    if fn.level == "method":
+        targs = "<" + ", ".join(s.targs) + ">" if s.targs else ""
+        if getattr(fn, "static", False):
+            return "%s::%s%s(%s)" % (fn.cls_type.core, s.base, targs, ", ".join(argnames))
+        return "%s.%s%s(%s)" % (argnames[0], "template " + s.base if targs else s.base, targs, ", ".join(argnames[1:]))
     raise Infra("replay: unknown level " + fn.level)
 
 
@@ -90,7 +95,7 @@ def make_replay(prop, rec, failed, out_dir):
     k = 0
     ret_decl_done = False
     for (kind, cname, ctype) in ctx.ir_order:
-        if kind in ("sret", "this", "ptr", "tag"):
+        if kind in ("sret", "this", "ptr", "tag", "mem"):
             C.append("  %s %s = (%s)post_args[%d]; %s OLD_%s = (%s)pre_args[%d];" % (ctype, cname, ctype, k, ctype, cname, ctype, k))
         elif kind in ("scalar", "value"):
             C.append("  %s %s; memcpy(&%s, pre_args[%d], sizeof %s);" % (ctype, cname, cname, k, cname))
@@ -122,11 +127,25 @@ def make_replay(prop, rec, failed, out_dir):
         else:
             pt = next(dem_iter)
             cpptype = pt.core
+            if kind == "mem":
+                cpptype = pt.text.replace("&", "").strip()
         if kind == "tag":
             k += 1
             continue
         size = job["target"]["params"][k].get("pointee_size") if kind in ("this", "ptr") else None
         vals = inputs.get(k, {})
+        if kind == "mem":
+            nbytes = getattr(ctx, "mem_bytes", {}).get(cname, 64)
+            by = bytearray(nbytes)
+            for o, (nb, v) in vals.items():
+                by[o:o + nb] = int(v).to_bytes(nb, "little")
+            D.append("  alignas(64) static unsigned char in%d[%d] = {%s};" % (k, nbytes, ",".join(str(b) for b in by)))
+            D.append("  alignas(64) static unsigned char buf%d[%d]; std::memcpy(buf%d, in%d, %d);" % (k, nbytes, k, k, nbytes))
+            D.append("  %s a%d = (%s)buf%d;" % (cpptype, k, cpptype, k))
+            D.append("  pre_args[%d] = in%d; post_args[%d] = buf%d;" % (k, k, k, k))
+            argnames.append("a%d" % k)
+            k += 1
+            continue
         if kind in ("this", "ptr"):
             nbytes = size
         else:
